@@ -1368,7 +1368,7 @@ def oracle_decl(c, r):
         if len(r["groups"]) != len(exp_groups):
             fails.append(("EPResult accessor count", []))
         if "groups_early_object" in r and r["groups_early_object"] != r["groups"]:
-            fails.append(("an EPResult created (and read) between two calls of run() reports %r, a fresh EPResult on the same "
+            fails.append(("an EPResult made before the fit and read after every recorded entry reports %r at the end, a fresh EPResult on the same "
                           "history reports %r" % (r["groups_early_object"], r["groups"]), []))
         if r.get("posterior_missing"):
             fails.append(("EPResult.model has no entry for the priors %s of the graph" % r["posterior_missing"],
